@@ -576,10 +576,16 @@ pub fn run_property(cx: &RunCtx, known: &Known) -> Verdict {
             "tainted_histories": st.tainted, "untainted_histories": st.untainted, "wall_s": tj.elapsed().as_secs_f64()}));
         total.merge(st);
     }
-    if cx.prop == "C13" {
-        // E2 part: GList against the Vec model is already covered by the GL job (SEQ monitor)
+    let mut extra_evals = 0u64;
+    let mut extra_types = json!(null);
+    if cx.prop == "C19" {
+        // E2 part: the generic serde paths with other element/member types
+        let (e, d, v, smp) = algebra::serde_types(cx.seed, (40.0 * cx.scale) as u64 + 1);
+        extra_evals = e;
+        extra_types = json!({"evaluations": e, "distinct_states": d, "types": smp});
+        total.violations.extend(v);
     }
-    let evals: u64 = eval_keys(&cx.prop).iter().map(|k| total.h.evals.get(k).cloned().unwrap_or(0)).sum();
+    let evals: u64 = eval_keys(&cx.prop).iter().map(|k| total.h.evals.get(k).cloned().unwrap_or(0)).sum::<u64>() + extra_evals;
     // property-specific measured count of distinct non-trivial cases
     let (distinct, rule): (u64, String) = match cx.prop.as_str() {
         "C01" | "C20" | "C12" | "C15" => (total.h.cuts_multi, "distinct (history, knowledge set) pairs reached by >= 2 different delivery/merge orders, whose observations were compared".into()),
@@ -635,6 +641,9 @@ pub fn run_property(cx: &RunCtx, known: &Known) -> Verdict {
         known_lines.push(format!("# attributed {v} occurrence(s) of {k} to a known finding (shrunk and re-judged)"));
     }
     evidence["wall_job_s"] = json!(t0.elapsed().as_secs_f64());
+    if !extra_types.is_null() {
+        evidence["serde_other_value_types"] = extra_types;
+    }
     evidence["known_samples"] = json!(total.known_samples.values().take(4).map(|f| json!({"finding": f.finding, "kind": f.kind, "sut": f.sut, "log": f.log})).collect::<Vec<_>>());
     let ks: Vec<Finding> = total.known_samples.values().cloned().collect();
     Verdict { violations: total.violations, known_lines, inconclusive, evidence, known_samples: ks }
